@@ -360,6 +360,16 @@ class Check:
             self.obligation_failures.append(('audit', p))
         thms, out = check_props(self.pid)
         self.theorems = thms
+        if self.thorough() and all(t['status'] == 'proved' for t in thms):
+            # independent re-check of the compiled files of this property and everything they depend on
+            with BuildLock():
+                rc, cout = sh(['timeout', '2400', 'coqchk', '-silent', '-o', '-Q', 'theories', 'EdxmlVerif', 'EdxmlVerif.Props.%s' % self.pid], cwd=COQ, timeout=2500)
+            summary = cout[cout.find('CONTEXT SUMMARY'):] if 'CONTEXT SUMMARY' in cout else cout[-800:]
+            self.cov['coqchk'] = ' '.join(summary.split())[:600]
+            clean = rc == 0 and all(('* %s: <none>' % k) in summary for k in ('Axioms', 'Constants/Inductives relying on type-in-type',
+                                                                               'Constants/Inductives relying on unsafe (co)fixpoints', 'Inductives whose positivity is assumed'))
+            if not clean:
+                self.obligation_failures.append(('coqchk', 'coqchk -o did not report a clean context: rc=%d %s' % (rc, summary[-600:])))
         for t in thms:
             if t['status'] != 'proved':
                 self.obligation_failures.append((t['name'], t.get('where', '') + ' ' + ' '.join(t['assumptions']) + '\n' + out[-3000:]))
